@@ -112,6 +112,8 @@ func intOf(cls string, lo, hi int) int {
 		return hi
 	case "hi+1":
 		return hi + 1
+	case "wrap":
+		return 256 + lo
 	case "huge":
 		return 1 << 40
 	}
